@@ -1,5 +1,7 @@
 #!/usr/bin/env python
 
+import struct
+
 from ..debugging import bacpypes_debugging, ModuleLogger
 from ..capability import Capability
 
@@ -9,7 +11,7 @@ from ..constructeddata import Any, Array, ArrayOf, List
 
 from ..apdu import SimpleAckPDU, ReadPropertyACK, ReadPropertyMultipleACK, \
     ReadAccessResult, ReadAccessResultElement, ReadAccessResultElementChoice
-from ..errors import ExecutionError
+from ..errors import ExecutionError, RejectException, InvalidParameterDatatype
 from ..object import PropertyError
 
 # some debugging
@@ -118,13 +120,20 @@ class ReadWritePropertyServices(Capability):
             if _debug: ReadWritePropertyServices._debug("    - datatype: %r", datatype)
 
             # special case for array parts, others are managed by cast_out
-            if issubclass(datatype, Array) and (apdu.propertyArrayIndex is not None):
-                if apdu.propertyArrayIndex == 0:
-                    value = apdu.propertyValue.cast_out(Unsigned)
+            try:
+                if issubclass(datatype, Array) and (apdu.propertyArrayIndex is not None):
+                    if apdu.propertyArrayIndex == 0:
+                        value = apdu.propertyValue.cast_out(Unsigned)
+                    else:
+                        value = apdu.propertyValue.cast_out(datatype.subtype)
                 else:
-                    value = apdu.propertyValue.cast_out(datatype.subtype)
-            else:
-                value = apdu.propertyValue.cast_out(datatype)
+                    value = apdu.propertyValue.cast_out(datatype)
+            except RejectException:
+                raise
+            except (ValueError, TypeError, AttributeError, IndexError, KeyError, struct.error) as err:
+                # the value does not decode as the datatype of the property
+                # (DecodingError and EncodingError are ValueErrors)
+                raise InvalidParameterDatatype(str(err))
             if _debug: ReadWritePropertyServices._debug("    - value: %r", value)
 
             # change the value
